@@ -100,7 +100,7 @@ inline VbkBlock mineVbk(RealWorld& w, uint8_t prevId, const uint128& merkleRoot 
   return b;
 }
 // mines BTC block number `id` on top of miner block `prevId` (hash preset; display order: last byte = id)
-inline BtcBlock mineBtc(RealWorld& w, uint8_t prevId, const uint256& merkleRoot = uint256()) {
+inline BtcBlock mineBtc(RealWorld& w, uint8_t prevId, const uint256& merkleRoot = uint256(), bool realHash = false) {
   auto* tip = w.mbtc->getBlockIndex(w.btcById[prevId].getHash());
   VBK_ASSERT(tip != nullptr);
   Miner<BtcBlock, BtcChainParams> m(w.bp);
@@ -109,9 +109,13 @@ inline BtcBlock mineBtc(RealWorld& w, uint8_t prevId, const uint256& merkleRoot 
   b.nonce = id;
   b.timestamp = tip->getTimestamp() + 1;
   b.bits = getNextWorkRequired(*tip, b, static_cast<const BtcChainParams&>(w.bp));
+  if (realHash) {   // persistence scenarios: BTC hashes are recomputed on load, so the block is really mined (regtest: a few nonces, concrete SHA-256)
+    for (uint32_t n = (uint32_t)id << 8;; n++) { b.nonce = n; b.hash_ = uint256(); if (checkProofOfWork(b, w.bp)) break; }
+  } else {
   for (int i = 0; i < 32; i++) ((uint8_t*)b.hash_.data())[i] = 0;
   ((uint8_t*)b.hash_.data())[31] = id;
   ((uint8_t*)b.hash_.data())[30] = 0x77;   // never collides with the real regtest genesis hash
+  }
   ValidationState st;
   bool ok = w.mbtc->acceptBlockHeader(b, st);
   VBK_ASSERT(ok);
